@@ -500,6 +500,17 @@ class Program:
                     r = self.inline(t2)
                     if r is not None and r[0] not in ("unknown",):
                         return self.expand(r, depth + 1, skip, loops)
+            if tgt[0] == "closure" and loops and tgt[2] in self.closures:
+                # a local helper (nested def / lambda) called directly where it is defined: its value, like that of a
+                # module-level helper
+                info = self.closures[tgt[2]][0]
+                node = info.node
+                if not getattr(node, "decorator_list", None) and not any(
+                        isinstance(n, (ast.For, ast.While, ast.Nonlocal, ast.Global, ast.Yield, ast.YieldFrom)) for n in ast.walk(node)):
+                    r = self.inline(t2)
+                    if r is not None and r[0] not in ("unknown",) and not any(
+                            x[0] in ("unknown", "undef") for x in walk(r)):
+                        return self.expand(r, depth + 1, skip, loops)
         if is_term(t2) and t2[0] == "sub" and len(t2) == 3 and t2[2][0] == "const" and isinstance(t2[2][1], int):
             return _project(t2[1], t2[2][1], t2)
         return t2
@@ -1376,6 +1387,9 @@ class _Exec:
                     parts.append(const(v.value))
                 else:
                     parts.append(self.expr(v.value))
+            if all(is_term(x) and x[0] == "const" and isinstance(x[1], str) for x in parts) and not any(
+                    isinstance(v, ast.FormattedValue) and (v.conversion != -1 or v.format_spec is not None) for v in e.values):
+                return const("".join(x[1] for x in parts))  # every piece is a known string: the string itself
             return ("fstr", tuple(parts))
         if isinstance(e, ast.FormattedValue):
             return self.expr(e.value)
